@@ -47,6 +47,8 @@ HAND_WBXML = [
     "03056a0478797a00" "4400" "01",                                     # SI: literal tag <xyz> with content
     "03056a0478797a00" "45" "c60b03687474703a2f2f6100" "0a" "c3041999123101" "01" "8300" "02a020" "01" "01",
     "01046a00" "7f" "e7" "550378005a03793d7a0001" "60" "43" "0400" "0376" "0001" "01" "01" "01",   # WML 1.1 card/p, pi
+    "030e6a00" "4c" "c303010203" "01",                 # DRMREL <ds:KeyValue> opaque: decode_base64_value (content)
+    "029f536a00" "0001" "50" "c303010203" "01",        # SyncML 1.1 MetInf <NextNonce> opaque: decode_base64_value (content)
 ]
 
 
@@ -296,7 +298,8 @@ def run(ctx):
             reached += 1
         site = chain(harness, m.get("fail", ""))
         if int(m["leaked"]):
-            problems.append({"kind": "leak", "site": site, "line": l, "detail": "leaked=%s first leaked block allocated at %s" % (m["leaked"], chain(harness, m.get("leak", "")))})
+            problems.append({"kind": "leak", "site": site, "line": l, "leaked_from": chain(harness, m.get("leak", "")),
+                             "detail": "leaked=%s first leaked block allocated at %s" % (m["leaked"], chain(harness, m.get("leak", "")))})
         if int(m["dfree"]):
             problems.append({"kind": "double-free", "site": site, "line": l, "detail": a_short(m)})
         if int(m["ufree"]):
@@ -344,13 +347,23 @@ def run(ctx):
             trace_disagree.append({"line": l, "trace_ok": v, "harness_accounting_clean": exp})
 
     # ---- verdict --------------------------------------------------------------------------------------------------
-    by_key = {}
+    # key = kind @ allocation site, tightened by WHAT went wrong on that failure branch: for a leak the call chain that
+    # had allocated the first leaked block, for a crash the sanitizer's verdict and function.  (The plain
+    # "<kind>@<site>" form is still honoured for entries registered before the keys were tightened.)
+    by_key, legacy = {}, {}
     for p in problems:
-        k = "%s@%s" % (p["kind"].split(":")[0] if p["kind"].startswith("crash") else p["kind"], p["site"])
+        base = "%s@%s" % (p["kind"].split(":")[0] if p["kind"].startswith("crash") else p["kind"], p["site"])
+        k = base
+        if p["kind"] == "leak" and p.get("leaked_from"):
+            k = "leak(%s)@%s" % (p["leaked_from"], p["site"])
+        elif p["kind"].startswith("crash:"):
+            k = "crash(%s)@%s" % (p["kind"][6:].replace(" ", "_"), p["site"])
         by_key.setdefault(k, []).append(p)
+        legacy[k] = base
     pend, viol = {}, {}
     for k, ps in by_key.items():
-        (pend if (k in PENDING or ctx.known(k)) else viol)[k] = ps
+        known = k in PENDING or ctx.known(k) or ctx.known(legacy[k]) or legacy[k] in PENDING
+        (pend if known else viol)[k] = ps
 
     ctx.coverage.update({
         "evaluations": len(all_lines) + len(cases),
@@ -380,11 +393,12 @@ def run(ctx):
                 "clean": clean.get(c), "replay_cmd": "bin/check C16 --replay <this file>"}
 
     for k in sorted(pend):
-        if ctx.known(k):
-            ctx.report_known(k)
+        kk = k if ctx.known(k) else (legacy[k] if ctx.known(legacy[k]) else None)
+        if kk:
+            ctx.report_known(kk)
         else:
             print("KNOWN-FINDING: property=%s %s — %s [%d runs, e.g. '%s' on %s]" % (
-                PID, k, PENDING[k], len(pend[k]), pend[k][0]["line"], docs.items[int(pend[k][0]["line"].split()[1])][2]), flush=True)
+                PID, k, PENDING.get(k) or PENDING.get(legacy[k]), len(pend[k]), pend[k][0]["line"], docs.items[int(pend[k][0]["line"].split()[1])][2]), flush=True)
             ctx.known_hits.append(k)
     ctx.coverage["pending_findings"] = {k: payload(k, v) for k, v in list(pend.items())[:60]}
     for k in sorted(viol)[:12]:
